@@ -969,6 +969,38 @@ def sums(ctx):
                 ok = rec is not None and rec.result is not None and c == ('uf', 'unwrap', ('uf', 'unwrap', rec.result))
                 ctx.check(ok, R, fn + '|term', 'each locomotive contributes the value of its checking getter mass()',
                           'contribution is %s' % show(c, ca.names)[:200], ctx.where(cb))
+    # ------------------------------------------------ locomotive mass = Σ of the parts its powertrain type has + baseline + ballast
+    fn = 'Locomotive::derived_mass'
+    b = ctx.anchor(R, fn)
+    an = analysis_or_fail(ctx, R, b) if b is not None else None
+    if an is not None:
+        pt = prog.typedef('PowertrainType')
+        vidx = {v['name']: v['idx'] for v in pt.variants}
+        LT = (('obj', 1), ('f', 'loco_type'))
+        base = ('pre', (('obj', 1), ('f', 'baseline_mass'), ('as', 'Some'), ('f', '#0')))
+        ball = ('pre', (('obj', 1), ('f', 'ballast_mass'), ('as', 'Some'), ('f', '#0')))
+        def part(v, comp):
+            return ('pre', LT + (('as', v), ('f', '#0'), ('f', comp), ('f', 'mass'), ('as', 'Some'), ('f', '#0')))
+        want = {'ConventionalLoco': ['fc', 'gen'], 'HybridLoco': ['fc', 'gen', 'res'], 'BatteryElectricLoco': ['res']}
+        r = an.ret()
+        both = select(select(r, lambda d: d == ('discr', ('pre', (('obj', 1), ('f', 'baseline_mass')))), 1), lambda d: d == ('discr', ('pre', (('obj', 1), ('f', 'ballast_mass')))), 1)
+        def terms_of(t, out):
+            if t[0] == 'add':
+                for x in t[1:]:
+                    terms_of(x, out)
+            else:
+                out.append(t)
+        for v, comps in want.items():
+            arm = select(both, lambda d: d == ('discr', ('pre', LT)), vidx[v])
+            key = fn + '|' + v
+            if not (arm[0] == 'ok' and arm[1][0] == 'some'):
+                ctx.unproved(R, key, 'with baseline and ballast given the result for this powertrain type is not Ok(Some(sum)): %s' % show(arm, an.names)[:200], ctx.where(b)); continue
+            got = []
+            terms_of(arm[1][1], got)
+            exp = [part(v, c_) for c_ in comps] + [base, ball]
+            ctx.check(sorted(map(repr, got)) == sorted(map(repr, exp)), R, key, 'derived mass = %s + baseline + ballast, each part once' % ' + '.join(comps),
+                      'derived mass sums %s' % [show(x, an.names)[-60:] for x in got], ctx.where(b))
+        ctx.floor('powertrain arms of Locomotive::derived_mass', len(want), 3)
     fn = '<Consist as Mass>::mass'
     b = ctx.anchor(R, fn)
     an = analysis_or_fail(ctx, R, b) if b is not None else None
